@@ -33,6 +33,8 @@ type vfConn struct {
 	log     *[]string
 	slowWriteAt int  // index of the write that takes a long time (-1: none)
 	pastDeadline bool // a read deadline was set that had already expired
+	idle          time.Duration // the idle time-out the harness configured (0: unknown)
+	shortDeadline bool          // a read deadline was armed at less than half the idle time-out
 }
 
 var vfErrIO = errors.New("vf: i/o error")
@@ -104,6 +106,9 @@ func (c *vfConn) SetReadDeadline(t time.Time) error {
 	if t.Before(time.Now()) {
 		c.pastDeadline = true
 	}
+	if c.idle > 0 && !t.IsZero() && t.Before(time.Now().Add(c.idle/2)) {
+		c.shortDeadline = true
+	}
 	return nil
 }
 func (c *vfConn) SetWriteDeadline(t time.Time) error { c.ev("WD"); return nil }
@@ -117,7 +122,8 @@ func (vfLn) Stop() error     { return nil }
 
 func vfNewTCPProc(policy service.LoadBalancePolicy, hosts ...*host.Host) *tcpProc {
 	d := 10 * nd.Unit()
-	cfg := &service.Config{IdleTimeout: &d, ConnectTimeout: &d, LbPolicy: policy}
+	ct := 3 * nd.Unit() // deliberately different from the idle time-out
+	cfg := &service.Config{IdleTimeout: &d, ConnectTimeout: &ct, LbPolicy: policy}
 	return &tcpProc{
 		Logger:  log.New("vf"),
 		stats:   proc.NewStats(stats.CreateScope("vf.")),
